@@ -31,7 +31,7 @@ def draw_config(rng):
         "stdout": {"kind": rng.choice(STDOUT_KINDS)},
         "logger": {"kind": rng.choice(["default", "default", "error_level", "raising_handler", "debug_level"])},
         "warnings": {"kind": "error" if rng.random() < 0.15 else "always"},
-        "numpy_print": {"kind": rng.choice(["default"] * 8 + ["precision3", "formatter", "threshold"])},
+        "numpy_print": {"kind": rng.choice(["default"] * 8 + ["precision3", "formatter", "threshold", "legacy113", "legacy113"])},
     }
 
 
